@@ -3,6 +3,7 @@
 reference/signatures.json (with the /repo commit).  Run after the rules have been confirmed on a new /repo
 commit (e.g. after a fix: commit).  Maintenance tool; checks only read the file."""
 import json, os, subprocess, sys
+os.environ['VERIF_NO_INLINE'] = '1'     # record the functions exactly as written
 VERIF = os.path.dirname(os.path.dirname(os.path.abspath(__file__)))
 sys.path.insert(0, VERIF)
 from sa.loader import Program
@@ -11,5 +12,5 @@ P = Program()
 sig = reference.build(P)
 commit = subprocess.run(['git', '-C', '/repo', 'rev-parse', 'HEAD'], capture_output=True, text=True).stdout.strip()
 os.makedirs(os.path.dirname(reference.REF_FILE), exist_ok=True)
-json.dump({'repo_commit': commit, 'functions': sig}, open(reference.REF_FILE, 'w'), indent=0, sort_keys=True)
+json.dump({'repo_commit': commit, 'functions': sig, 'locals': reference.build_locals(P)}, open(reference.REF_FILE, 'w'), indent=0, sort_keys=True)
 print('%d functions recorded at %s' % (len(sig), commit[:8]))
